@@ -74,3 +74,11 @@ PROPS["C14"]["rule"] += "; plus the message family (UnmarshalText of arbitrary w
 PROPS["C14"]["rule"] += ("; UnmarshalJSON is called on the method directly, also with every text put between two quotes as it is (a string "
                          "literal with RAW control characters, line breaks, quotes, backslashes inside - not a document for encoding/json, "
                          "whose verdict on it is the model's `decoded` input)")
+PROPS["C14"]["level_text"] += (" The encoding side of message_fields.go is in the model too (MarshalText, Value, MarshalJSON): every route yields a "
+                               "well-formed field (C14_routes_wf), and no detour changes a value - text (C14_text_roundtrip), driver value handed "
+                               "back as string or []byte (C14_value_scan_roundtrip), JSON for every document encoding/json reads back as the value "
+                               "(C14_json_roundtrip); an unset value has no text form. The oracle of these cases demands only what the property "
+                               "states (every value met on the way is single-line when set); that the detours give the same value back is the "
+                               "model's statement, checked by the correspondence.")
+PROPS["C14"]["rule"] += ("; route 5: the value NewID makes of each text through MarshalText/UnmarshalText, Value/Scan (string and []byte), "
+                         "MarshalJSON/UnmarshalJSON, every buffer overwritten after use, the JSON document compared by what it denotes")
